@@ -79,7 +79,7 @@ func minT(n int) int { return n/2 + 1 }
 
 // mutation names of proposals; "" = valid
 var initialMutations = []string{"", "", "", "", "thr-low", "thr-high", "expired", "bad-scheme", "bad-joiner-sig", "leader-missing", "empty-joiner", "nil-timeout", "dup-joiner"}
-var reshareMutations = []string{"", "", "", "", "", "thr-low", "thr-high", "expired", "bad-joiner-sig", "drop-member", "invent-member", "leader-leaving", "leader-joining", "no-remaining", "below-old-thr", "joiner-also-leaving"}
+var reshareMutations = []string{"", "", "", "", "", "thr-low", "thr-high", "expired", "bad-joiner-sig", "drop-member", "invent-member", "leader-leaving", "leader-joining", "no-remaining", "below-old-thr", "joiner-also-leaving", "few-remainers-many-joiners", "shadow-joiner", "shadow-joiner"}
 
 func corruptSig(p *pdkg.Participant) *pdkg.Participant {
 	q := proto.Clone(p).(*pdkg.Participant)
@@ -204,8 +204,55 @@ func (h *hist) reshareCmd(s reshareSpec, mut string) *pdkg.DKGCommand {
 		if len(o.Joining) > 0 {
 			o.Leaving = append(o.Leaving, o.Joining[0])
 		}
+	case "few-remainers-many-joiners":
+		// fewer current members than the OLD threshold remain, but joiners make the new group large
+		// enough for every other rule: only the old-threshold rule refuses it
+		h.fewRemainers(o, s.leader)
+	case "shadow-joiner":
+		// a VALID proposal (today's rules) whose joining list re-uses the address of a remaining member
+		// (the leader, and one more member if any) under the attacker's validly self-signed key
+		if !h.kyber {
+			h.addShadows(o, s)
+		}
 	}
 	return &pdkg.DKGCommand{Metadata: cmdMeta(), Command: &pdkg.DKGCommand_Resharing{Resharing: o}}
+}
+
+// shadowOf is a joiner entry with the address of id and the attacker's key and self-signature (the
+// self-signature of an identity does not cover its address, so the entry is validly self-signed).
+func (h *hist) shadowOf(id *ident) *pdkg.Participant {
+	x := h.w.ids[len(h.w.ids)-1]
+	return &pdkg.Participant{Address: id.part.Address, Key: x.part.Key, Signature: x.part.Signature}
+}
+
+func (h *hist) addShadows(o *pdkg.ProposalOptions, s reshareSpec) {
+	o.Joining = append(o.Joining, h.shadowOf(h.w.ids[s.leader]))
+	for _, r := range s.remaining {
+		if r != s.leader {
+			o.Joining = append(o.Joining, h.shadowOf(h.w.ids[r]))
+			break
+		}
+	}
+	n := len(o.Joining) + len(o.Remaining)
+	if int(o.Threshold) < minT(n) {
+		o.Threshold = uint32(minT(n))
+	}
+}
+
+// fewRemainers rewrites the options so that only the leader remains, every other member leaves and
+// all outsiders (and the key-only identity) join.
+func (h *hist) fewRemainers(o *pdkg.ProposalOptions, leader int) {
+	o.Remaining = h.parts([]int{leader})
+	o.Leaving = h.parts(without(h.group, leader))
+	var outside []int
+	for i := range h.w.ids {
+		if len(without([]int{i}, h.group...)) == 1 {
+			outside = append(outside, i)
+		}
+	}
+	o.Joining = h.parts(outside)
+	n := len(o.Joining) + len(o.Remaining)
+	o.Threshold = uint32(minT(n))
 }
 
 func simpleCmd(kind string) *pdkg.DKGCommand {
